@@ -50,6 +50,15 @@ class GhostHook:
             cur = eng.state.heap[(me.oid, "g_submitted")]
             eng.state.heap[(me.oid, "g_submitted")] = VSeq(z3.Concat(cur.t, z3.Unit(elem_id(eng, arg))))
 
+    def on_attr_write(self, eng, obj=None, field=None, val=None, node=None):
+        # posting stop requests (set_thread_count): only a notify_all issued AFTERWARDS counts as announcing them
+        me = self.self_getter(eng)
+        if field == "stop_count" and me is not None and getattr(obj, "oid", None) == me.oid and eng.cur_func.split("@")[0].endswith("set_thread_count"):
+            eng.state.ghost["stop_posted"] = True
+            cv = eng.state.heap.get((me.oid, "queue_cv"))
+            if cv is not None:
+                eng.state.ghost["notified_all:%d" % eng.force(cv).oid] = False
+
     def on_list_pop(self, eng, lst=None, value=None, node=None):
         if self.is_queue(eng, lst):
             me = self.self_getter(eng)
@@ -82,8 +91,20 @@ def alias_locks(eng, env):
         eng.state.heap[(c.oid, "lock")] = lk
 
 
+def cv_flag(prefix):
+    def fn(eng, condfield):
+        from vlib.builtins_model import strval
+        from vlib.pyvc import VBool
+        me = eng.self_under_verification
+        c = eng.state.heap[(me.oid, strval(condfield))]
+        return VBool(bool(eng.state.ghost.get("%s:%d" % (prefix, c.oid), False)))
+    return fn
+
+
 def install(reg):
     reg.install_std_specs()
+    reg.spec_funcs.update({"notified": cv_flag("notified"), "notified_all": cv_flag("notified_all"),
+                           "stop_posted": lambda eng: __import__("vlib.pyvc", fromlist=["VBool"]).VBool(bool(eng.state.ghost.get("stop_posted", False)))})
     reg.spec_funcs.update({"seq": seq, "empty_seq": empty_seq, "unit": unit, "my_taken": local("g_mine"), "my_serviced": local("g_serviced"),
                            "my_cancelled": local("g_cancelled")})
     install_threading(reg, lambda eng: next((h for h in eng.hooks if isinstance(h, MonitorHook)), None))
@@ -96,6 +117,8 @@ def install(reg):
     reg.monitors = [MonitorSpec("lock", ["queue", "threads", "stop_count", "active_count", "g_submitted", "g_taken"], MON_INV, name="lock")]
     reg.add(FuncContract(D + ".start_new_thread", params={"target": Opaque("callable"), "thread_no": Int}))
     reg.add(FuncContract(D + ".add_task", params={"task": Opaque("task")}, setup=alias_locks, raises=[],
+                         # every submission wakes a worker: a task is never left queued while an idle worker sleeps
+                         ensures=[("C05-a-worker-is-woken-for-every-submitted-task", "notified('queue_cv')")],
                          monitor_preserves=[("worker-target", "len(self.threads) - self.stop_count")]))
     TARGET = ("worker-target", "len(self.threads) - self.stop_count")
     reg.add(FuncContract(D + ".handler_thread", params={"thread_no": Int}, setup=alias_locks, raises=[],
@@ -106,7 +129,9 @@ def install(reg):
                1: LoopSpec(invariants=[("true", "True")])}))
     reg.add(FuncContract(D + ".set_thread_count", params={"count": Int}, setup=alias_locks, raises=[],
         requires=[("count-nonneg", "count >= 0")],
-        ensures=[("target-is-count", "len(self.threads) - self.stop_count == count")],
+        ensures=[("target-is-count", "len(self.threads) - self.stop_count == count"),
+                 # stop requests are addressed to several workers at once: all idle ones must be woken to see them
+                 ("C14-all-idle-workers-woken-when-stop-requests-are-posted", "implies(stop_posted(), notified_all('queue_cv'))")],
         modifies=["self.threads", "self.stop_count", "self.active_count"],
         loops={0: LoopSpec(invariants=[("C14-running-is-target", "running == len(self.threads) - self.stop_count"),
                                        ("running-le-count-or-initial", "self.stop_count >= 0 and self.stop_count <= len(self.threads)"),
